@@ -8,4 +8,9 @@ MixInit == /\ batch \in RandomSubset(100, [1..2 -> Task]) \cup RandomSubset(100,
            /\ looks \in 0..2
            /\ key \in KeyClasses /\ params = <<>> /\ last = [op |-> "none"] /\ hist = <<>>
 MixSpec == MixInit /\ [][Next]_vars
+(* batches above one answer: byte parameters of 8 MiB each ("giant"), two or three tasks that do not fit the 30 MB one check-in hands out; Deliver then
+   stands for the agent checking in until nothing is left - every task once, in order, each exactly as issued *)
+LongInit == /\ batch \in UNION {[1..n -> [row : {"shellcode_spawn", "kerberos_ptt", "shellcode_inject"}, pclass : {"giant"}]] : n \in 2..3}
+            /\ looks = 0 /\ key \in {"nonzero", "wrap"} /\ params = <<>> /\ last = [op |-> "none"] /\ hist = <<>>
+LongSpec == LongInit /\ [][Next]_vars
 =============================================================================
